@@ -1,6 +1,7 @@
 package main
 
 import (
+	"os"
 	"fmt"
 	"go/token"
 	"go/types"
@@ -213,6 +214,9 @@ func (fr *Frame) inline(callee *ssa.Function, args []Value, bind []Value, res ss
 	nf.inDefer = fr.inDefer
 	rpc, rst, vals := nf.run(pc, st)
 	if rpc.IsFalse() {
+		if os.Getenv("GOVC_TRACE") != "" {
+			fmt.Fprintf(os.Stderr, "trace: inlined %s never returns (called from %s)\n", shortFuncName(callee), shortFuncName(fr.fn))
+		}
 		return rpc
 	}
 	*st = *rst
@@ -451,6 +455,16 @@ func (fr *Frame) applyContract(ct *Contract, callee *ssa.Function, sig *types.Si
 		for _, al := range ct.Allows {
 			if x.active(al) {
 				fr.checkEffect(ct, al, env, pc, pos)
+			}
+		}
+		if callee != nil && inRepo(callee) {
+			// the package-wide default rules are part of the callee's contract
+			for _, d := range x.W.DefaultsFor(callee) {
+				for _, cl := range d.Clauses {
+					if cl.Kind == "allows" && x.active(cl) {
+						fr.checkEffect(ct, cl, env, pc, pos)
+					}
+				}
 			}
 		}
 	}
@@ -1544,14 +1558,15 @@ func (w *World) dynModSet(c *ssa.CallCommon) *ModSet {
 func (fr *Frame) applyModSet(ms *ModSet, st *State, args []Value) {
 	x := fr.x
 	if ms.all {
+		// everything reachable through escaped pointers ...
 		x.havocAll(st)
 		for id, v := range st.cells {
 			if x.cellEscaped[id] {
 				st.cells[id] = x.freshValue(v.T, "cell")
 			}
 		}
-		return
 	}
+	// ... plus the fields the callee's code names
 	var names []string
 	for n := range ms.names {
 		names = append(names, n)
